@@ -110,8 +110,10 @@ def build_simbatch(desc):
         if rng.random() < 0.3:
             actions.append(dict(_place(rng, mid, "q%d" % at), at=at))
     # duplicate placement of an order that is already in the blotter (also forced: force skips the controls, nothing else)
-    if n and rng.random() < 0.6:
-        valid = [i for i, it in enumerate(items) if it["size"] in (0.01, 0.5, 2.0) and it["price"] != 2.01] or [0]
+    valid = []
+    if n:
+        valid = [i for i, it in enumerate(items) if it["size"] in (0.01, 0.5, 2.0) and it["price"] != 2.01]
+    if n and valid and rng.random() < 0.6:
         actions.append({"m": mid, "at": 5, "op": "place", "ref": "p%d" % rng.choice(valid), "reuse": True, "sel": [801, 0], "side": "BACK", "price": 3.0, "size": 2.0, "force": rng.random() < 0.5})
     case = {"seed": desc["seed"], "idx": desc["idx"], "markets": [{"id": mid, "text": mf.text()}], "clients": [{"min_bet_validation": False}], "strategies": [{"name": "S0", "actions": actions}]}
     return case, {mid: G.read_lines(mf.lines)}
